@@ -12,9 +12,15 @@ import (
 	"github.com/hknutzen/Netspoc-Approve/go/pkg/codefiles"
 	"github.com/hknutzen/Netspoc-Approve/go/pkg/errlog"
 	"github.com/hknutzen/Netspoc-Approve/go/pkg/program"
+	"github.com/hknutzen/Netspoc-Approve/go/pkg/verifhook"
 )
 
 func GetHTTPClient(cfg *program.Config, ip string) (*http.Client, string) {
+	if c, a := verifhook.HTTPClient(
+		time.Duration(cfg.Timeout)*time.Second,
+		time.Duration(cfg.LoginTimeout)*time.Second, ip); c != nil {
+		return c, a
+	}
 	addr := fmt.Sprintf("https://%s", ip)
 	if simul := os.Getenv("SIMULATE_ROUTER"); simul != "" {
 		addr = simul
